@@ -462,6 +462,11 @@ def r5_index(prog, rep: Report, fam: Family):
             reads_line = any(isinstance(c, ast.Call) and isinstance(c.func, ast.Attribute) and c.func.attr == "readline"
                              and isinstance(c.func.value, ast.Name) and c.func.value.id == handle_var
                              for c in ast.walk(head)) or (isinstance(head, ast.Name) and head.id == handle_var)
+            # for _ in iter(<handle>.readline, b""): one readline per round, ended by the empty bytes object of a binary handle
+            if isinstance(head, ast.Call) and src(head.func) == "iter" and len(head.args) == 2:
+                rl, sentinel = head.args
+                reads_line = isinstance(rl, ast.Attribute) and rl.attr == "readline" and isinstance(rl.value, ast.Name) \
+                    and rl.value.id == handle_var and isinstance(sentinel, ast.Constant) and sentinel.value == (b"" if binary else "")
             tells = all(len(a.args) == 1 and isinstance(a.args[0], ast.Call) and isinstance(a.args[0].func, ast.Attribute)
                         and a.args[0].func.attr == "tell" and isinstance(a.args[0].func.value, ast.Name)
                         and a.args[0].func.value.id == handle_var for a in appends)
